@@ -67,6 +67,9 @@ def run_config(run, exe, spec, name, conf, consts, prop, workers=3, env=None, ca
     init = init_line(spec.lower(), conf)
     steps = tlcgraph.write_schedule(sched, g, tours, init, obs_fmt=tlcgraph.fmt_obs_noghost)
     e = dict(os.environ, VERIF_PROP=prop)
+    e.setdefault("VERIF_HB", "1")      # race detector on nsync's own plain accesses (see mulib.run_config)
+    if prop != "C03":
+        e.setdefault("VERIF_SOFT", "O-hb")
     if env:
         e.update(env)
     res = mulib.run_harness_env(exe, ["replay", sched, REPLAYS], e)
@@ -106,7 +109,10 @@ def run_family(run, exe, spec, prop, configs, consts_of, wanted_inv, wanted_or, 
                 run.violation(tag, path, "%s refutes %s in configuration %s; the real code follows the counterexample in lock-step to the end (label %s)" % (spec, f["name"], name, f["label"]))
             else:
                 run.note("spec-level refutation NOT reproduced on the code (%s): %s" % (tag, res["mismatch"]))
-        if out["res"]["mismatch"]:
+        foreign_ls = sorted(({v[0] for v in out["res"]["viols"]} | {x.split()[1].split("|")[0] for x in out["res"].get("soft", []) if len(x.split()) > 1}) - set(wanted_or) - {"O-crash", "O-harness"})
+        if out["res"].get("soft"):
+            run.note("oracle of another property counted in %s/%s (the replays went on): %s" % (spec, name, out["res"]["soft"][0][:200]))
+        if out["res"]["mismatch"] or foreign_ls:
             mulib.continue_divergences(run, exe, name, out, set(wanted_or) | {"O-crash"})
             nloc = 20000 if run.tier == "quick" else 300000
             resx = mulib.run_harness_env(exe, ["random", str(nloc), str(seed() + 7), out["init"], REPLAYS], out["env"])
@@ -116,7 +122,7 @@ def run_family(run, exe, spec, prop, configs, consts_of, wanted_inv, wanted_or, 
             for v in resx["viols"]:
                 if v[0] in wanted_or or v[0] == "O-crash":
                     run.violation("%s|%s|explore %s" % (v[0], v[1], name), v[4], v[5]); hit = True
-            foreign = sorted({v[0] for v in resx["viols"]} - set(wanted_or) - {"O-crash", "O-harness"})
+            foreign = sorted(({v[0] for v in resx["viols"]} | set(foreign_ls)) - set(wanted_or) - {"O-crash", "O-harness"})
             if foreign and not hit:
                 # only another property's oracle fired: switch it off and see what the fault does to this property; plain accesses to shared
                 # memory become scheduling points too, since the fault may be a race between plain accesses
